@@ -30,7 +30,12 @@ f += ["", "Observations that are *not* findings (no listed property is broken): 
       "error (valid by the documented grammar, but a rejection is not an altered output: C16 counts them);",
       "`asm.Batcher` re-emits earlier batch items if batch lines are not at the end of a node (the",
       "documentation requires the end); pg `Close()` returns `ErrSingleTx` in plain single mode; pg `Dump`",
-      "commits while its rows are still being read (listing is specified for the filesystem backend only)."]
+      "commits while its rows are still being read (listing is specified for the filesystem backend only);",
+      "one `persist.Persister` object reused with `WithFlush()` for several *different* sessions keeps the old",
+      "scope maps in the backing array of `Cache.Cache`, and `cbor.Unmarshal` merges the next session's scopes",
+      "into them (reported by a sub-agent, probed: needs sessions whose scopes hold different keys) — every listed",
+      "property gives each session its own state/cache objects, so this is outside them; `state.SetFlag`'s range",
+      "check `bitIndex+1 > BitSize` wraps for index 2^32-1 (still a panic, as the documented precondition says)."]
 findings = "\n".join(f)
 rows = []
 for mf in sorted(glob.glob(V + '/seeded/*/meta.json')):
